@@ -31,13 +31,27 @@
 (* is a phase-1 check of UTXOW: it is a precondition of BOTH branches of     *)
 (* UTXOS, so the table of part 2 does not read the flag (FlagIrrelevant).    *)
 (* The case space has the flag as the field p2 (TRUE = is_valid is false).   *)
+(*                                                                           *)
+(* Part 4: the encoding shape of the script data.  The hash is over the      *)
+(* ORIGINAL bytes of the redeemers and datums as they were on the wire,      *)
+(* whatever their shape: minimal, with non-minimal integer / length heads,   *)
+(* indefinite-length containers, map keys out of canonical order, or a       *)
+(* redeemer map with a repeated key (decoded last-wins).  A decoder may      *)
+(* normalise what it decodes; the rule may not: the hash of ANY re-encoding  *)
+(* that differs from the original bytes is a mismatch, and the right hash    *)
+(* is right for every shape (OriginalBytes).  Fields rs (redeemer shape)     *)
+(* and denc (datum encoding); "any" = the driver picks a legal encoding and  *)
+(* makes it non-canonical whenever the row's declared term re-encodes.       *)
 EXTENDS Integers, Sequences, FiniteSets, Json, TLC, SequencesExt
 
 CONSTANTS
     MaxLang,     \* languages 0..MaxLang (0 = PlutusV1, 1 = V2, 2 = V3, 3 = V4)
     Shapes,      \* cost-model shapes, see CostLen
     RuleShapes,  \* the shapes the rule rows are generated for (subset of Shapes)
-    P2Shapes     \* the shapes the FLAGGED rule rows (is_valid = false) are generated for (subset of RuleShapes)
+    P2Shapes,    \* the shapes the FLAGGED rule rows (is_valid = false) are generated for (subset of RuleShapes)
+    ShapedL,     \* the language sets (a set of subsets of Langs) ...
+    ShapedShapes,\* ... cost-model shapes (subset of RuleShapes) ...
+    ShapedP2     \* ... and flag values (subset of BOOLEAN) the rows with an EXPLICIT encoding shape are generated for
 
 Langs == 0..MaxLang
 
@@ -128,7 +142,31 @@ DatFields == {"absent", "emptyList", "emptySet", "list", "set"}
 Dat(c) == c.datf \in {"list", "set"}                 \* the transaction has datums
 SetForm(fld) == fld \in {"emptySet", "set"}              \* tag-258 sets exist from Conway on
 
-ErasOf(L, fld) == {e \in Eras : L \subseteq (EraLangs(e) \cap Langs) /\ (SetForm(fld) => e \in {"conway", "dijkstra"})}
+\* The encoding shape of the redeemers (witness-set key 5) as they are on the wire:
+\*   form   list   [ [tag, index, data, ex_units], ... ]      Alonzo, Babbage, Conway (legacy)
+\*          map    { [tag, index] => [data, ex_units], ... }  Conway, Dijkstra
+\*   enc    canon      definite lengths, minimal heads, keys in order: re-encoding gives the same bytes
+\*          wide       non-minimal integer / length heads
+\*          indef      the outer container has indefinite length
+\*          unordered  two entries, keys not in canonical order (map)
+\*          dupKey     two entries with the SAME (tag, index) key (map); the Conway ledger decodes
+\*                     the map last-wins and cardano-node accepts such transactions (they are on
+\*                     chain); later decoders may refuse the map, so the shape is a Conway one
+\* "any": not fixed by the case (see part 4).
+AnyShape  == [form |-> "any", enc |-> "any"]
+RedShapes == [form : {"list", "map"}, enc : {"canon", "wide", "indef"}] \cup [form : {"map"}, enc : {"unordered", "dupKey"}]
+FormEras(f) == CASE f = "list" -> {"alonzo", "babbage", "conway"} [] f = "map" -> {"conway", "dijkstra"} [] OTHER -> Eras
+EncEras(e)  == IF e = "dupKey" THEN {"conway"} ELSE Eras
+\* the datums: canon (definite, minimal), wide (non-minimal heads), indef (indefinite-length list)
+DatEncs == {"canon", "wide", "indef"}
+
+\* re-encoding the decoded value canonically gives the original bytes back only for "canon"
+RedCanon(c) == c.rs.enc = "canon"
+DatCanon(c) == c.denc = "canon"
+
+ErasOf(x) == {e \in Eras : /\ x.L \subseteq (EraLangs(e) \cap Langs)
+                            /\ (SetForm(x.datf) => e \in {"conway", "dijkstra"})
+                            /\ e \in FormEras(x.rs.form) \cap EncEras(x.rs.enc)}
 
 \* How a transaction comes to be flagged is_valid = false (field p2 of a case):
 \*   alonzo, babbage, conway   the third element of the transaction's envelope is false
@@ -168,8 +206,8 @@ DeclParts(c) ==
     LET r == IF c.red THEN "orig" ELSE "empty"
         d == IF Dat(c) THEN "orig" ELSE "none"
         P(rr, dd, LL, vv) == [red |-> rr, dat |-> dd, L |-> LL, v |-> vv]
-    IN CASE c.decl = "reencRed"   -> P(IF c.red THEN "reenc" ELSE r, d, c.L, "spec")
-         [] c.decl = "reencDat"   -> P(r, IF Dat(c) THEN "reenc" ELSE d, c.L, "spec")
+    IN CASE c.decl = "reencRed"   -> P(IF c.red /\ ~RedCanon(c) THEN "reenc" ELSE r, d, c.L, "spec")
+         [] c.decl = "reencDat"   -> P(r, IF Dat(c) /\ ~DatCanon(c) THEN "reenc" ELSE d, c.L, "spec")
          [] c.decl = "noDat"      -> P(r, "none", c.L, "spec")
          [] c.decl = "emptyDat"   -> P(r, IF Dat(c) THEN d ELSE "emptyfield", c.L, "spec")
          [] c.decl \in Variants   -> P(r, d, c.L, c.decl)
@@ -183,7 +221,8 @@ Declared(c) ==
 
 HasScriptData(c) == c.red \/ Dat(c)
 
-\* Accept and Reason are functions of (L, shape, red, datf, decl) alone: p2 is not read
+\* Accept and Reason do not read p2; they read the encoding shape only through "does re-encoding
+\* give the same bytes" (RedCanon / DatCanon, in the two rows that declare the hash of a re-encoding)
 Accept(c) ==
     IF ~HasScriptData(c) THEN c.decl = "absent"
     ELSE c.decl # "absent" /\ Declared(c) = Right(c)
@@ -196,12 +235,22 @@ Reason(c) ==
 ---------------------------------------------------------------------------
 (* The case space (one state per case)                                      *)
 
-Case(L, shape, red, datf, decl, p2) == [L |-> L, shape |-> shape, red |-> red, datf |-> datf, decl |-> decl, p2 |-> p2]
-Unflagged == { Case(L, s, r, d, k, FALSE) : L \in SUBSET Langs, s \in RuleShapes, r \in BOOLEAN, d \in DatFields, k \in Decls }
-Flagged   == { Case(L, s, r, d, k, TRUE)  : L \in SUBSET Langs, s \in P2Shapes,   r \in BOOLEAN, d \in DatFields, k \in Decls }
-CaseSpace == Unflagged \cup Flagged
+Case(L, shape, red, datf, decl, p2, rs, denc) ==
+    [L |-> L, shape |-> shape, red |-> red, datf |-> datf, decl |-> decl, p2 |-> p2, rs |-> rs, denc |-> denc]
+Base(L, s, r, d, k, p) == Case(L, s, r, d, k, p, AnyShape, "any")
+Unflagged == { Base(L, s, r, d, k, FALSE) : L \in SUBSET Langs, s \in RuleShapes, r \in BOOLEAN, d \in DatFields, k \in Decls }
+Flagged   == { Base(L, s, r, d, k, TRUE)  : L \in SUBSET Langs, s \in P2Shapes,   r \in BOOLEAN, d \in DatFields, k \in Decls }
+\* explicit redeemer shapes (with and without datums), explicit datum encodings (with and without redeemers)
+RedShaped == { Case(L, s, TRUE, d, k, p, rs, "any") :
+                 L \in ShapedL, s \in ShapedShapes, d \in {"absent", "list"}, k \in Decls, p \in ShapedP2, rs \in RedShapes }
+DatShaped == { Case(L, s, r, d, k, p, AnyShape, de) :
+                 L \in ShapedL, s \in ShapedShapes, r \in BOOLEAN, d \in {"list", "set"}, k \in Decls, p \in ShapedP2, de \in DatEncs }
+CaseSpace == Unflagged \cup Flagged \cup RedShaped \cup DatShaped
+
+IsBase(x) == x.rs = AnyShape /\ x.denc = "any"
 
 ASSUME P2Shapes \subseteq RuleShapes /\ RuleShapes \subseteq Shapes
+ASSUME ShapedL \subseteq SUBSET Langs /\ ShapedShapes \subseteq RuleShapes /\ ShapedP2 \subseteq BOOLEAN /\ FALSE \in ShapedP2
 
 \* A flagged transaction without a redeemer is not a transaction a block can hold (is_valid =
 \* false says that a script failed, and a script that ran has a redeemer): another rule rejects it
@@ -221,8 +270,13 @@ AllCasesVisited == TLCGet("distinct") = Cardinality(CaseSpace)
 
 cv == LangViews(c.L, c.shape)
 
+\* ViewShape, Wrapping and Distinct read (L, shape) only: they are evaluated in the one case of
+\* every (L, shape) that has nothing else (every (L, shape) of the space has that case)
+ViewRep == ~c.red /\ c.datf = "absent" /\ c.decl = "absent" /\ ~c.p2 /\ IsBase(c)
+ASSUME \A x \in RedShaped \cup DatShaped \cup Flagged : Base(x.L, x.shape, FALSE, "absent", "absent", FALSE) \in Unflagged
+
 \* shape of the value: a map head with one entry per language, V1 last
-ViewShape ==
+ViewShape == ViewRep =>
     /\ cv[1] = <<"map", Cardinality(c.L)>>
     /\ LET o == Order(c.L, "spec") IN
           /\ Len(o) = Cardinality(c.L) /\ {o[i] : i \in 1..Len(o)} = c.L
@@ -231,7 +285,7 @@ ViewShape ==
           /\ \A i, j \in 1..Len(o) : (i < j /\ o[j] # 0) => o[i] < o[j]
 
 \* PlutusV1 is double-wrapped with an indefinite list, later languages are not
-Wrapping ==
+Wrapping == ViewRep =>
     /\ (0 \in c.L =>
           LET e == Entry(c.shape, 0, "spec") IN
              /\ Len(e) = 2 /\ e[1] = <<"bstr", << <<"uint", 0>> >> >>
@@ -244,7 +298,7 @@ Wrapping ==
 
 \* different language sets, and every near-miss variant that applies, give a
 \* different value (so the "wrong" rows of the table are really wrong)
-Distinct ==
+Distinct == ViewRep =>
     /\ \A M \in SUBSET Langs : M # c.L => LangViews(M, c.shape) # cv
     /\ (0 \in c.L /\ Cardinality(c.L) >= 2 <=> View(c.L, c.shape, "byNumber") # cv)
     /\ (0 \in c.L <=> View(c.L, c.shape, "v1Single") # cv)
@@ -254,36 +308,56 @@ Distinct ==
 
 \* shape of the decision table
 RuleShape ==
-    /\ (Accept(c) => (HasScriptData(c) <=> c.decl # "absent"))
-    /\ (HasScriptData(c) /\ c.decl = "right" => Accept(c))
-    /\ (c.decl = "absent" => (Accept(c) <=> ~HasScriptData(c)))
-    /\ (c.decl = "random" => ~Accept(c))
-    /\ (~HasScriptData(c) /\ c.decl # "absent" => Reason(c) = "extraneous")
-    /\ (HasScriptData(c) /\ c.decl = "reencRed" => (Accept(c) <=> ~c.red))
-    /\ (HasScriptData(c) /\ c.decl \in {"reencDat", "noDat"} => (Accept(c) <=> ~Dat(c)))
-    /\ (HasScriptData(c) /\ c.decl = "emptyDat" => (Accept(c) <=> Dat(c)))
+    LET a == Accept(c)          \* (LET: evaluated once)
+        h == HasScriptData(c)
+    IN
+    /\ (a => (h <=> c.decl # "absent"))
+    /\ (h /\ c.decl = "right" => a)
+    /\ (c.decl = "absent" => (a <=> ~h))
+    /\ (c.decl = "random" => ~a)
+    /\ (~h /\ c.decl # "absent" => Reason(c) = "extraneous")
+    /\ (h /\ c.decl = "reencRed" => (a <=> ~c.red \/ RedCanon(c)))
+    /\ (h /\ c.decl = "reencDat" => (a <=> ~Dat(c) \/ DatCanon(c)))
+    /\ (h /\ c.decl = "noDat" => (a <=> ~Dat(c)))
+    /\ (h /\ c.decl = "emptyDat" => (a <=> Dat(c)))
     \* a present-but-empty datum field behaves exactly like an absent one
-    /\ Accept(c) = Accept([c EXCEPT !.datf = IF Dat(c) THEN c.datf ELSE "absent"])
+    /\ (~Dat(c) /\ c.datf # "absent" => a = Accept([c EXCEPT !.datf = "absent"]))
     /\ (~Dat(c) => Right(c).dat = "none")
-    /\ (HasScriptData(c) /\ c.decl = "moreLangs" => (Accept(c) <=> c.L = Langs))
-    /\ (HasScriptData(c) /\ c.decl = "fewerLangs" => (Accept(c) <=> c.L = {}))
-    /\ (HasScriptData(c) /\ c.decl \in Variants => (Accept(c) <=> View(c.L, c.shape, c.decl) = cv))
+    /\ (h /\ c.decl = "moreLangs" => (a <=> c.L = Langs))
+    /\ (h /\ c.decl = "fewerLangs" => (a <=> c.L = {}))
+    /\ (h /\ c.decl \in Variants => (a <=> View(c.L, c.shape, c.decl) = cv))
 
 \* the phase-2 flag never changes the verdict, the reason, the right term or the declared term;
 \* every flagged case has its unflagged twin in the case space (so the flagged rows are the
 \* unflagged table again, and the twin is executed as well)
 Twin(x) == [x EXCEPT !.p2 = ~x.p2]
 FlagIrrelevant ==
-    /\ Accept(c) = Accept(Twin(c))
-    /\ Reason(c) = Reason(Twin(c))
-    /\ Right(c) = Right(Twin(c))
-    /\ Declared(c) = Declared(Twin(c))
-    /\ (c.p2 => Twin(c) \in Unflagged)
-    /\ (~c.p2 /\ c.shape \in P2Shapes => Twin(c) \in Flagged)
-    \* flagged rows of both verdicts exist wherever the unflagged table has both, with and
-    \* without redeemers: an implementation that skips the rule for flagged transactions
-    \* (accept all) or refuses them all differs from the table on an admissible row
-    /\ (c.p2 /\ c.red => \E k1, k2 \in Decls : Accept([c EXCEPT !.decl = k1]) /\ ~Accept([c EXCEPT !.decl = k2]))
+    LET t == Twin(c) IN
+    /\ Reason(c) = Reason(t)                  \* Accept(x) <=> Reason(x) = "ok": the verdict as well
+    /\ Right(c) = Right(t)
+    /\ Declared(c) = Declared(t)
+    /\ (c.p2 => t \in CaseSpace)
+    /\ (~c.p2 /\ IsBase(c) /\ c.shape \in P2Shapes => t \in Flagged)
+    \* flagged rows a block can hold have both verdicts: an implementation that skips the rule for
+    \* flagged transactions (accepts all) or refuses them all differs from the table on one of them
+    /\ (c.p2 /\ c.red => Accept([c EXCEPT !.decl = "right"]) /\ ~Accept([c EXCEPT !.decl = "random"]))
+
+\* the hash is over the original bytes whatever their shape: the right term never holds a
+\* re-encoding, the right hash is accepted for every shape, the verdict reads the shape only in the
+\* two rows that declare the hash of a re-encoding, and those are accepted exactly when
+\* re-encoding changes nothing
+Unshaped(x) == [x EXCEPT !.rs = AnyShape, !.denc = "any"]
+OriginalBytes ==
+    LET r == Right(c)
+        u == Unshaped(c)
+    IN
+    /\ r.red = (IF c.red THEN "orig" ELSE "empty") /\ r.dat = (IF Dat(c) THEN "orig" ELSE "none")
+    /\ (~IsBase(c) => /\ r = Right(u)
+                      /\ (c.decl \notin {"reencRed", "reencDat"} => Reason(c) = Reason(u) /\ Declared(c) = Declared(u))
+                      /\ ErasOf(c) # {})
+    /\ (c.red /\ c.decl = "reencRed" => (Accept(c) <=> RedCanon(c)))
+    /\ (Dat(c) /\ c.decl = "reencDat" => (Accept(c) <=> DatCanon(c)))
+    /\ (~c.red => c.rs = AnyShape) /\ (~Dat(c) => c.denc = "any")
 
 ---------------------------------------------------------------------------
 SetSeq(S) == SortSeq(SetToSeq(S), LAMBDA x, y : x < y)
@@ -297,8 +371,9 @@ Row(x) ==
     LET p == DeclParts(x) IN
     [L |-> SetSeq(x.L), shape |-> x.shape, red |-> x.red, datf |-> x.datf, dat |-> Dat(x), decl |-> x.decl,
      declRed |-> p.red, declDat |-> p.dat, declL |-> SetSeq(p.L), declVariant |-> p.v,
-     eras |-> ErasOf(x.L, x.datf), accept |-> Accept(x), reason |-> Reason(x),
-     p2 |-> x.p2, binding |-> IF Admissible(x) THEN "both" ELSE "rejectOnly"]
+     eras |-> ErasOf(x), accept |-> Accept(x), reason |-> Reason(x),
+     p2 |-> x.p2, binding |-> IF Admissible(x) THEN "both" ELSE "rejectOnly",
+     rform |-> x.rs.form, renc |-> x.rs.enc, denc |-> x.denc]
 
 Rows(S, F(_)) == LET q == SetToSeq(S) IN [i \in 1..Len(q) |-> F(q[i])]
 ViewKeys == (SUBSET Langs) \X Shapes \X Variants
